@@ -57,6 +57,22 @@ Theorem C12_from_every_reachable_state_the_call_can_still_complete_partial :
 Proof. intros n sync target Hn Hs ages arch_age sched. apply reachable_can_finish; assumption. Qed.
 Print Assumptions C12_from_every_reachable_state_the_call_can_still_complete_partial.
 
+(* REFUTED clause (known finding F13): "at return the mean island age has advanced by at least the requested number of
+   generations" fails for a repeated call in which a helper's island is ahead of the archipelago's age: the loop compares the mean
+   REPORTED age with generational_age + num_steps, and the helper's lead counts towards it.  Witness: two ranks, sync 2, the
+   archipelago at age 2 with islands at ages 2 and 8, evolve(2): every rank returns with island ages 4 and 8 - the mean advanced by 1. *)
+Theorem C12_mean_island_age_advances_by_the_requested_number_refuted :
+  exists (n : nat) (sync target : Z) (ages : list Z) (arch_age : Z) (sched : list nat),
+    (1 <= n)%nat /\ (1 <= sync)%Z /\ length ages = n /\ (forall k, (k < n)%nat -> (arch_age <= nth k ages 0)%Z) /\ (arch_age < target)%Z /\
+    let s := run n sync target sched (init n target ages arch_age) in
+    final s = true /\ (sum_list (age s) - sum_list ages < Z.of_nat n * (target - arch_age))%Z.
+Proof.
+  exists 2%nat, 2%Z, 4%Z, [2; 8]%Z, 2%Z, [1; 0; 0; 0; 0; 0; 0; 1; 1; 1; 0; 1; 0; 0; 0; 1; 1; 0; 0]%nat.
+  split; [lia|]. split; [lia|]. split; [reflexivity|]. split; [intros [|[|k]] Hk; cbn; lia|]. split; [lia|].
+  vm_compute. split; reflexivity.
+Qed.
+Print Assumptions C12_mean_island_age_advances_by_the_requested_number_refuted.
+
 (* non-vacuity: three ranks, a schedule that lets the helpers run ahead, ending in the final state *)
 Definition ex_sched : list nat :=
   ([1; 2; 1; 2; 0; 0; 1; 0; 0; 2; 0; 0; 0; 1; 1; 2; 2; 0; 0; 0; 1; 1; 1; 2; 2; 2; 0; 1; 2; 0; 1; 2; 0; 0] ++ repeat 0 10 ++
